@@ -61,15 +61,15 @@ class Context:
         if self.stack.size() == 0:
             return False
 
-        # if the size is 1, then check the top element for either empty or zero
-        if self.stack.size() == 1:
-            # no entry or 0 => false.
-            if self.get_stack() == Stack([[]]) or self.get_stack() == Stack([[0]]):
-                return False
-
-        if self.get_stack()[0] == [0] or self.get_stack()[0] == []:
+        # The verdict is the truth value of the TOP stack item (the last one), as in the interpreter's
+        # decode_bool: false if every byte is zero, ignoring the sign bit of the last byte
+        # (so empty, 00, 00 00 and negative zero 80 / 00 80 are all false).
+        top = bytes(self.stack[self.stack.size() - 1])
+        if len(top) == 0:
             return False
-        return True
+        if any(top[:-1]) or (top[-1] & 0x7f) != 0:
+            return True
+        return False
 
     def get_stack(self) -> Stack:
         """ Return the data stack as human readable
